@@ -315,7 +315,7 @@ class CFG(object):
                 continue
             names = [x.id for x in _ast.walk(e) if isinstance(x, _ast.Name)]
             attrs = [x for x in _ast.walk(e) if isinstance(x, _ast.Attribute)]
-            if attrs:
+            if any(_ast.unparse(x) not in getattr(self, "stable_attrs", ()) for x in attrs):
                 continue
             if all(counts.get(nm, 0) <= 1 for nm in names):
                 out.setdefault(_ast.unparse(e), []).append(n)
